@@ -1,28 +1,35 @@
 #!/usr/bin/env python3
-"""Run the registered checks against every seeded change: apply patch to /repo, ./check <property> --tier quick, undo.
-usage: tools_seedrun.py [seed-id ...]   (default: all seeds whose property is claimed in MANIFEST.json)"""
-import json, os, subprocess, sys, time
-os.chdir("/verif")
+"""Run the registered checks against seeded changes without touching /repo: each seed is applied to a scratch copy of the
+package (outside /repo and /verif), the check runs with PYVC_REPO pointing at it, the copy is removed.
+usage: tools_seedrun.py [seed-id ...]   (default: all seeds whose property is claimed in MANIFEST.json)
+Results are recorded in seeded/<id>/meta.json under "check_result"; evidence files are restored afterwards."""
+import json, os, shutil, subprocess, sys, tempfile, time
+os.chdir(os.path.dirname(os.path.abspath(__file__)))
 claimed = {c["property_id"] for c in json.load(open("MANIFEST.json"))["checks"]}
 seeds = sys.argv[1:] or sorted(os.listdir("seeded"))
-assert subprocess.run(["git", "-C", "/repo", "status", "--porcelain"], capture_output=True, text=True).stdout.strip() == "", "/repo not clean"
 for sd in seeds:
     d = os.path.join("seeded", sd)
     meta = json.load(open(d + "/meta.json"))
     pid = meta["property"]
     if pid not in claimed and not sys.argv[1:]:
         continue
-    r = subprocess.run(["git", "-C", "/repo", "apply", os.path.abspath(d + "/patch.diff")], capture_output=True, text=True)
-    if r.returncode != 0:
-        print(sd, "PATCH DOES NOT APPLY", r.stderr.strip()[:200]); continue
+    tmp = tempfile.mkdtemp(prefix="seedrepo_")
     try:
+        shutil.copytree("/repo/twosigma", tmp + "/twosigma")
+        r = subprocess.run(["patch", "-p1", "-s", "-i", os.path.abspath(d + "/patch.diff")], cwd=tmp, capture_output=True, text=True)
+        if r.returncode != 0:
+            print(sd, "PATCH DOES NOT APPLY", (r.stdout + r.stderr).strip()[:200]); continue
+        ev = "evidence/%s.json" % pid
+        saved = open(ev).read() if os.path.exists(ev) else None
         t0 = time.time()
-        p = subprocess.run(["./check", pid, "--tier", "quick"], capture_output=True, text=True)
+        p = subprocess.run(["./check", pid, "--tier", "quick"], capture_output=True, text=True, env=dict(os.environ, PYVC_REPO=tmp))
         lines = [l for l in p.stdout.splitlines() if l.startswith(("VIOLATION", "KNOWN", "UNDECIDED", "CHECKER"))]
-        meta["check_result"] = {"cmd": "./check %s --tier quick" % pid, "exit": p.returncode, "lines": lines[:6], "wall_s": round(time.time() - t0, 1),
-                                "detected": p.returncode == 1}
-        print(sd, "exit=%d" % p.returncode, lines[:2])
+        viol = [l for l in lines if l.startswith("VIOLATION")]
+        meta["check_result"] = {"cmd": "PYVC_REPO=<scratch copy with patch> ./check %s --tier quick" % pid, "exit": p.returncode, "lines": lines[:4], "violations": len(viol),
+                                "replayed_natively": sum(1 for l in viol if not l.endswith("no-failing-input-found")), "wall_s": round(time.time() - t0, 1), "detected": p.returncode == 1}
+        print(sd, "exit=%d" % p.returncode, "violations=%d replayed=%d" % (len(viol), meta["check_result"]["replayed_natively"]), [l[:140] for l in lines[:1]], flush=True)
+        if saved is not None:
+            open(ev, "w").write(saved)
     finally:
-        subprocess.run(["git", "-C", "/repo", "checkout", "--", "."])
-        subprocess.run(["git", "checkout", "--", "evidence"], capture_output=True)
+        shutil.rmtree(tmp, ignore_errors=True)
     json.dump(meta, open(d + "/meta.json", "w"), indent=1)
